@@ -2260,6 +2260,8 @@ private:
             size32_t root_sit_idx = make_situation_idx(root_situation_info);
             state_count = 1;
 
+            analyze_nterms_first_and_empty();
+
             size16_t current_state = 0;
             add_situation(current_state, root_sit_idx, true);
 
@@ -2278,6 +2280,55 @@ private:
                 current_state++;
             }
             return state_count;
+        }
+
+        constexpr void analyze_nterms_first_and_empty()
+        {
+            // nullable and FIRST sets of all nonterminals by fixpoint iteration:
+            // memoised recursion yields partial sets for mutually (left) recursive nonterminals
+            bool changed = true;
+            while (changed)
+            {
+                changed = false;
+                for (size16_t i = 0; i < rule_count; ++i)
+                {
+                    const rule_info& ri = gi.rule_infos[i];
+                    size16_t nt = ri.l_idx;
+                    term_subset first = nterm_first[nt];
+                    bool all_empty = true;
+                    for (size_t j = 0; j < ri.r_elements; ++j)
+                    {
+                        const symbol& s = gi.right_sides[ri.r_idx][j];
+                        if (s.term)
+                        {
+                            first.set(s.idx);
+                            all_empty = false;
+                            break;
+                        }
+                        first.add(nterm_first[s.idx]);
+                        if (!nterm_empty.test(s.idx))
+                        {
+                            all_empty = false;
+                            break;
+                        }
+                    }
+                    if (all_empty && !nterm_empty.test(nt))
+                    {
+                        nterm_empty.set(nt);
+                        changed = true;
+                    }
+                    if (!(first == nterm_first[nt]))
+                    {
+                        nterm_first[nt] = first;
+                        changed = true;
+                    }
+                }
+            }
+            for (size16_t nt = 0; nt < nterm_count; ++nt)
+            {
+                nterm_empty_analyzed.set(nt);
+                nterm_first_analyzed.set(nt);
+            }
         }
 
         constexpr void closure(size16_t state_idx, size32_t sit_idx)
